@@ -298,6 +298,11 @@ static void run_shift(const Desc& d, Pencil<T>& p, const std::string& store)
     cx.sigr = sigma;
     cx.normS = S.norm();
     cx.condfac = S.norm() * Si.norm();
+    {
+        // conditioning of the inner-product matrix enters the orthonormality of the basis as well
+        const MatL& IPm = (Mode == GEigsMode::Buckling) ? p.AL : p.BL;
+        cx.condfac = std::max(cx.condfac, IPm.norm() * IPm.inverse().norm());
+    }
     if (Mode == GEigsMode::ShiftInvert)
     {
         cx.mode = "gsi";
